@@ -235,9 +235,39 @@ func (m *MockTableHandler) All() []interface{} {
 	data := m.db.data[m.name]
 	result := make([]interface{}, len(data))
 	for i, v := range data {
-		result[i] = v
+		result[i] = cloneRecord(v)
 	}
 	return result
+}
+
+// cloneRecord returns a deep copy of a stored record. Handing out the stored
+// map itself let a request read (or JSON-encode) a record while another
+// request's Update wrote to it: a data race, a torn record, and in the worst
+// case a fatal "concurrent map read and map write".
+func cloneRecord(record map[string]interface{}) map[string]interface{} {
+	if record == nil {
+		return nil
+	}
+	out := make(map[string]interface{}, len(record))
+	for k, v := range record {
+		out[k] = cloneRecordValue(v)
+	}
+	return out
+}
+
+func cloneRecordValue(v interface{}) interface{} {
+	switch val := v.(type) {
+	case map[string]interface{}:
+		return cloneRecord(val)
+	case []interface{}:
+		out := make([]interface{}, len(val))
+		for i, e := range val {
+			out[i] = cloneRecordValue(e)
+		}
+		return out
+	default:
+		return v
+	}
 }
 
 // sameID reports whether a stored record id and a lookup id identify the same
@@ -261,7 +291,7 @@ func (m *MockTableHandler) Get(id interface{}) interface{} {
 
 	for _, record := range m.db.data[m.name] {
 		if sameID(record["id"], id) {
-			return record
+			return cloneRecord(record)
 		}
 	}
 	return nil
@@ -277,7 +307,8 @@ func (m *MockTableHandler) Create(data map[string]interface{}) map[string]interf
 		data["id"] = int64(len(m.db.data[m.name]) + 1)
 	}
 
-	m.db.data[m.name] = append(m.db.data[m.name], data)
+	// The store keeps its own copy: the caller goes on using data.
+	m.db.data[m.name] = append(m.db.data[m.name], cloneRecord(data))
 	return data
 }
 
@@ -290,10 +321,10 @@ func (m *MockTableHandler) Update(id interface{}, data map[string]interface{}) m
 		if sameID(record["id"], id) {
 			// Merge data
 			for k, v := range data {
-				record[k] = v
+				record[k] = cloneRecordValue(v)
 			}
 			m.db.data[m.name][i] = record
-			return record
+			return cloneRecord(record)
 		}
 	}
 	return nil
@@ -349,7 +380,7 @@ func (m *MockTableHandler) Filter(column string, value interface{}) []interface{
 	result := make([]interface{}, 0)
 	for _, record := range m.db.data[m.name] {
 		if record[column] == value {
-			result = append(result, record)
+			result = append(result, cloneRecord(record))
 		}
 	}
 	return result
